@@ -1,1 +1,31 @@
-From RxVerif Require Import Base.Prelude Ops.Machine Ops.Multi Ops.Combinators.
+(* C12 -- switching forwards only the latest inner sequence.
+   Refinement: for EVERY mapper (also raising) and EVERY input sequence, what
+   the subscriber of switch_map / switch_latest / flat_map_latest receives, and
+   when, is [switch_spec]: only the latest inner is listened to, a new inner
+   replaces it, completion needs the outer and the latest inner to have
+   completed, the first error of the outer or of the latest inner ends it. *)
+From RxVerif Require Import Base.Prelude Ops.Machine Ops.Multi Ops.MultiFacts Ops.RunLemmas
+  Ops.Combinators Ops.MergeFacts.
+
+Theorem C12_switch_refines_spec : forall A (mapper : A -> nat -> res unit) (ins : list (Z * inp A)),
+  temitted (fst (run (x_switch_map mapper) ins)) = switch_spec mapper true 0 false 1 ins.
+Proof. exact @switch_refines_spec. Qed.
+Print Assumptions C12_switch_refines_spec.
+
+(* at most the outer and one inner are ever subscribed: the runner state reached
+   from the specification's states *)
+Theorem C12_at_most_one_inner_subscribed : forall ol latest has,
+  (length (switch_live ol latest has) <= 2)%nat
+  /\ (forall k, In k (switch_live ol latest has) -> k = 0%nat \/ k = latest).
+Proof.
+  intros ol latest has. unfold switch_live. destruct ol, has; cbn; split; try lia;
+    intros k Hk; intuition.
+Qed.
+Print Assumptions C12_at_most_one_inner_subscribed.
+
+Example C12_witness :
+  temitted (fst (run (x_switch_map (fun _ _ => Ok tt))
+     [(0, ISrc 0%nat (Next 1)); (0, ISrc 1%nat (Next 10)); (0, ISrc 0%nat (Next 2));
+      (0, ISrc 1%nat (Next 11)); (0, ISrc 2%nat (Next 20)); (0, ISrc 0%nat Done); (0, ISrc 2%nat Done)]))
+  = [(2%nat, Next 10); (5%nat, Next 20); (7%nat, Done)].
+Proof. vm_compute. reflexivity. Qed.
